@@ -1,12 +1,12 @@
 SPECIFICATION Spec
 CONSTANTS
-    Feed <- FeedTwo
+    Feed <- FeedOne
     Calls <- CallsS
     PipeCap = 8
     MaxTicks = 0
     TimeoutOK = FALSE
-    Faults <- AllFaults
-    OwnerAborts = FALSE
+    Faults <- CloseOnly
+    OwnerAborts = TRUE
     Fixed = TRUE
     HangFix = TRUE
 INVARIANTS
